@@ -128,22 +128,25 @@ theorem ser_eq_push_partial :
     (∀ s, ser (.str s) = push (.str s)) ∧ ser .none = push .none :=
   ⟨fun _ _ => rfl, fun _ => rfl, fun _ => rfl, fun _ => rfl, fun _ => rfl, rfl⟩
 
-/-! ## Rooting a NaN (defect; fingerprint `rooted-value:nan-float`) -/
+/-! ## Rooting (`Pushable::marshal`, `run_expr::<T>`, `OpaqueValue` keep the value in a `RootedValue`) -/
 
-/-- `RootedValue::drop` looks its value up with `obj_eq`, which compares floats with `==`: a rooted
-    NaN is never found (`ice!("Rooted value has already been dropped")`, in a destructor). -/
-theorem rooted_nan_drop_fails : unrootFinds [.float 9221120237041090560] (.float 9221120237041090560) = false := by
+/-- Every unboxed value that was rooted — NaN floats included — is found again by
+    `RootedValue::drop` (`unroot_`), wherever it sits among the rooted values. (True since fix
+    5d628f8: `obj_eq` compares float bits.) -/
+theorem rooted_drop (v : GV) (pre post : List GV) (h : unboxed v = true) :
+    unrootFinds (pre ++ v :: post) v = true := by
+  cases v <;> simp [unboxed] at h <;> simp [unrootFinds, objEq]
+
+/-- Regression: under the old rule (floats compared with `==`) a rooted NaN was never found —
+    `ice!("Rooted value has already been dropped")` inside a destructor. -/
+theorem rooted_nan_old_rule_fails :
+    unrootFindsOld [.float 9221120237041090560] (.float 9221120237041090560) = false := by
   decide
 
-/-- Non-NaN floats are found. -/
-theorem rooted_float_drop_partial (b : Nat) (rooted : List GV) (h : isNaN64 b = false) :
-    unrootFinds (.float b :: rooted) (.float b) = true := by
-  simp [unrootFinds, objEq, f64Eq, h]
-
-/-- With floats compared by bit pattern every rooted value is found again. -/
-theorem rooted_drop_fixed (b : Nat) (rooted : List GV) :
-    unrootFindsFixed (.float b :: rooted) (.float b) = true := by
-  simp [unrootFindsFixed, objEqFixed]
+/-- The old rule did find every non-NaN float. -/
+theorem rooted_float_old_rule_partial (b : Nat) (rooted : List GV) (h : isNaN64 b = false) :
+    unrootFindsOld (.float b :: rooted) (.float b) = true := by
+  simp [unrootFindsOld, objEqOld, f64Eq, h]
 
 /-! ## Non-vacuity -/
 
@@ -162,5 +165,7 @@ example : push (.vec [.u8 1, .u8 2]) = .array .byte [.byte 1, .byte 2] := by rfl
 example : push (.vec []) = .array .unknown [] := by rfl
 example : typeStr (.int .u16) = typeStr (.int .i64) ∧ typeStr .char ≠ typeStr (.int .i64) := by decide
 example : isNaN64 9221120237041090560 = true := by decide
+example : unboxed (.float 9221120237041090560) = true ∧
+    unrootFinds [.int 3, .float 9221120237041090560] (.float 9221120237041090560) = true := by decide
 
 end GluonModel.Props.C11
